@@ -162,7 +162,7 @@ func c06CascadeCase(t *rapid.T) {
 		stored = rapid.SampledFrom([]string{"absent", "absent", "odsq4", "ods"}).Draw(t, "stored")
 	}
 	mode := "script"
-	if rapid.IntRange(0, 5).Draw(t, "clockmode") == 0 {
+	if rapid.IntRange(0, 3).Draw(t, "clockmode") == 0 {
 		mode = "clock"
 	}
 	flavour := context.DeadlineExceeded
